@@ -103,11 +103,12 @@ def gen_tags(rng, n, tier):
         if c["cat"].lower() == "alias" and c["tag"] in ("Mine", "Num", "Name"):
             pass
         for mode in ("name", "path", "directory"):
-            for position in (("template",) if tier == "quick" and rng.random() < 0.6 else ("template", "filter", "sort")):
+            for position in ("template", "filter", "sort"):
+                # quick: every tag at least once (name mode, name template); the other combinations are sampled
+                if tier == "quick" and (mode, position) != ("name", "template") and rng.random() < 0.7:
+                    continue
                 cases.append({"cat": c["cat"], "tag": c["tag"], "help": c["help"], "mode": mode, "position": position,
                               "strategy": rng.choice(["-cs", "-ci", "-co", "-cm"])})
-    if tier == "quick":
-        cases = [c for c in cases if rng.random() < 0.5]
     return cases
 
 
@@ -140,12 +141,22 @@ def impl_tags(case):
                 args.append("--sort=str(" + call + ")")
         args += ["--", template, str(root / "data")]
         cwd_before = os.getcwd()
+        # the user's home (caches, configuration) is part of "the file system": point it into the watched tree
+        (root / "home").mkdir()
+        saved_env = {k: os.environ.get(k) for k in ("HOME", "XDG_CACHE_HOME", "XDG_CONFIG_HOME", "XDG_DATA_HOME")}
+        os.environ.update(HOME=str(root / "home"), XDG_CACHE_HOME=str(root / "home" / ".cache"),
+                          XDG_CONFIG_HOME=str(root / "home" / ".config"), XDG_DATA_HOME=str(root / "home" / ".local"))
         before = full_snapshot(root)
         audit_start(root)
         try:
             out, err, rc = common.run_cli(args, stdin_text="o\ni\ns\n")
         finally:
             events = audit_stop()
+            for k, v in saved_env.items():
+                if v is None:
+                    os.environ.pop(k, None)
+                else:
+                    os.environ[k] = v
         cwd_after = common.run_cli.last_cwd_after
         after = full_snapshot(root)
         considered = next((l.split(" ")[0] for l in out.split("\n") if "considered for renaming" in l), "?")
